@@ -171,9 +171,9 @@ theorem compat_sound_fo (T : Table) (a b fuel : Nat) (ha : FO T a) (hb : FO T b)
 /-- the same from an arbitrary set of already-valid assumptions and any stack (the form in which
 the relation is used below a union during narrowing) -/
 theorem checkRel_sound_fo (T : Table) (fuel : Nat) (asm : Asm) (st : Stk)
-    (a b : Nat) (ha : FO T a) (hb : FO T b) (hasm : ∀ p ∈ asm, Valid T p.1 p.2) (asm' : Asm)
+    (a b : Nat) (ha : FO T a) (hb : FO T b) (hasm : ∀ p ∈ asm, Valid T p.1 p.2.1) (asm' : Asm)
     (h : checkRel T .all fuel asm st a b = some (true, asm')) :
-    (∀ v, inh T [] a v → inh T [] b v) ∧ ∀ p ∈ asm', Valid T p.1 p.2 := by
+    (∀ v, inh T [] a v → inh T [] b v) ∧ ∀ p ∈ asm', Valid T p.1 p.2.1 := by
   have := checkRel_good_any T fuel (rk T a + rk T b + 1) asm st a b ha hb (by omega)
     (fun p hp => Or.inl (hasm p hp)) true asm' h
   exact ⟨fun v hv => this.2 rfl [] [] v hv, fun p hp => (this.1 p hp).elim (hasm p) id⟩
@@ -256,7 +256,7 @@ must not name a field twice (`PartsDistinct`; with a repeated name such a type i
 to itself below different enclosing types, because the partial-vs-partial arm looks at the first field
 of a name only). -/
 theorem compat_stateless_fo (T : Table) (hd : PartsDistinct T) (a b : Nat) (ha : FO T a) (hb : FO T b) :
-    (∀ fuel asm st asm', (∀ p ∈ asm, Sub T p.1 p.2) →
+    (∀ fuel asm st asm', (∀ p ∈ asm, Sub T p.1 p.2.1) →
         checkRel T .all fuel asm st a b = some (true, asm') → Sub T a b) ∧
     (Sub T a b → ∀ fuel asm st, rk T a + rk T b < fuel →
         ∃ asm', checkRel T .all fuel asm st a b = some (true, asm')) :=
